@@ -352,7 +352,7 @@ inline rc::Gen<Op> op_gen(const HistWeights &w) {
         Op o; o.kind = K_QUERY; o.a = {*cmd_st(), *seq0_gen(), *pick({-1, -1, -1, -1, 0, 1})}; return o; })});
     if (w.qlt) alts.push_back({(size_t)w.qlt, rc::gen::exec([=] {
         Op o; o.kind = K_QLT;
-        o.a = {*cmd_st(), *bnd({0, 1, 0xFFFF}, 0, 0xFFFF, 1, 2), *pick({0x0E, 0x0E, 0x11, 0x13, 0x12, 0x00, 0xFF}),
+        o.a = {*cmd_st(), *bnd({0, 1, 0xFFFF}, 0, 0xFFFF, 1, 2), *chance(12) ? *range<int64_t>(0, 0x20) : *pick({0x0E, 0x0E, 0x11, 0x13, 0x12, 0x00, 0xFF}),
                *bnd({0, 1, 541, 542, 543, 1000, 0xFFFF}, 0, 3000, 1, 1), *pick({0, 0, 0, 1})};
         return o; })});
     if (w.hello) alts.push_back({(size_t)w.hello, rc::gen::exec([=] {
